@@ -1,5 +1,5 @@
 """Which obligations exist, which property each serves, how counterexamples are confirmed natively."""
-from .obligations import version, table, versionset
+from .obligations import version, table, versionset, logs
 
 ASSUMPTIONS = [
     'Engine B: the MIR executor (mirse/exec.py) and the std/dependency summaries (mirse/lib.py) are trusted; every counterexample is replayed on the native build, passing witnesses are replayed differentially',
@@ -34,11 +34,14 @@ OBLIGATIONS = {
              'confirm': versionset.o1_7_confirm, 'witness_ok': versionset.o1_7_witness_ok},
     'O8.2': {'engine': 'B', 'title': 'log_and_apply reports a failed manifest write and does not install the version', 'run': versionset.o8_2_log_and_apply,
              'confirm': versionset.o8_2_confirm},
+    'O12.1': {'engine': 'B', 'title': 'log writer fragmentation geometry for every start offset and record length', 'run': logs.o12_1_writer,
+              'confirm': logs.o12_1_confirm, 'witness_ok': logs.o12_1_witness_ok},
 }
 
 PROPERTIES = {
     'C07': {'obligations': ['O7.1', 'O7.2', 'O7.3', 'O7.4a', 'O7.4b', 'O7.4c']},
     'C01': {'obligations': ['O1.3', 'O1.4', 'O1.6', 'O1.7']},
     'C08': {'obligations': ['O8.2']},
+    'C12': {'obligations': ['O12.1']},
     'C10': {'obligations': ['O7.1', 'O1.3', 'O10.3']},
 }
